@@ -45,6 +45,10 @@ func main() {
 			fmt.Println(id)
 		}
 	default:
+		if f, ok := run.Subcommands[os.Args[1]]; ok {
+			drv.SilenceStdoutKeep()
+			os.Exit(f(os.Args[2:]))
+		}
 		fmt.Fprintln(os.Stderr, "unknown command", os.Args[1])
 		os.Exit(2)
 	}
